@@ -237,10 +237,17 @@ class FileInfo:
 
         if self.arch_len:
             self.arch_index = arch_index
-            arch_file = get_arch_filename(prefix, arch_index)
-            with open(os.path.join(self.vpk.folder, arch_file), 'ab') as file:
-                self.offset = file.seek(0, os.SEEK_END)
-                file.write(arch_data)
+            if arch_index is None:
+                # This goes after the directory tree in the _dir file. write_dirfile() rewrites that
+                # whole file, so keep the data with the rest of the footer until then. Offsets
+                # are relative to the end of the tree.
+                self.offset = len(self.vpk.footer_data)
+                self.vpk.footer_data += arch_data
+            else:
+                arch_file = get_arch_filename(prefix, arch_index)
+                with open(os.path.join(self.vpk.folder, arch_file), 'ab') as file:
+                    self.offset = file.seek(0, os.SEEK_END)
+                    file.write(arch_data)
         else:
             # Only stored in the main index
             self.arch_index = None
